@@ -165,7 +165,7 @@ func c17Check(env *Env, m *wvlib.Model, c *C17Case, patch []byte, od string, new
 		if r.touched != want {
 			env.R.Violate("touched-count", fmt.Sprintf("touched=%d, whitelisted files=%d", r.touched, want), c)
 		}
-		if c.Seed%3 == 1 {
+		if c.Seed%3 == 1 && (!env.Thorough() || c.Seed%15 == 1) {
 			// the same whitelisted application stopped at EVERY checkpoint and resumed: with one patcher resumed
 			// again and again its count, with a new patcher per session the sum of the counts, is the number of
 			// whitelisted files; the files come out as before
